@@ -40,48 +40,64 @@ def check(ctx):
     envs, run_d = core.core_run(ctx.tier, profile="debug")
     envs_r, run_r = core.core_run(ctx.tier, profile="release")
     fam_of = {e.name: getattr(e, "family", "") for e in envs}
-    for p in run_d.problems + run_r.problems:
+    for p in (run_d.problems + run_r.problems)[:3]:
         # a runner that died (abort / signal) shows up here with its exit status
         ctx.violation("runner problem (abort or signal?): " + p, {"problem": p}, found_input=False)
     n = bad_t2 = bad_rel = bad_off = panics = 0
-    reported = set()
-    for (a, b, x, aa), (ar, br, xr, aar) in zip(run_d.records(), run_r.records()):
+    pending = {}      # sid -> (priority, why, found, payload); lower priority number = better replay
+    rel_ok = not run_r.problems
+
+    def pairs():
+        if rel_ok:
+            for d, r in zip(run_d.records(), run_r.records()):
+                yield d, r
+        else:           # a release shard died: its output is truncated, so lines cannot be paired; the debug run still decides
+            for d in run_d.records():
+                yield d, None
+    for (a, b, x, aa), rel in pairs():
+        ar, xr = (rel[0], rel[2]) if rel is not None else (a, x)
         n += 1
         sid = a[:a.index("|")]
-        why = None
-        found = True
-        if "PANIC" in a or "PANIC" in ar:
-            panics += 1
-            why = "the implementation panicked: %s" % (a if "PANIC" in a else ar)[:200]
-        elif a != ar or x != xr:
-            bad_rel += 1
-            why = "debug and release builds differ: %s vs %s" % (a[:150], ar[:150])
-        elif a != b:
-            bad_t2 += 1
-            why = "model/implementation correspondence broken on %s" % sid
-            found = False
         sid_, form, hx, ia, ib, f = rtcat.split_line(a)
-        if why is None:
-            s = bytes.fromhex(hx) if hx != "-" else b""
-            lo = ia if form != "str" else 0
-            hi = ib if form == "span" else len(s)
-            for o in offsets_of(f):
-                if o < lo or o > hi or (o < len(s) and (s[o] & 0xC0) == 0x80):
-                    bad_off += 1
-                    why = "offset %d is outside [%d,%d] or not a char boundary of the input" % (o, lo, hi)
-                    break
+        why, found, prio = None, True, 9
+        s = bytes.fromhex(hx) if hx != "-" else b""
+        lo = ia if form != "str" else 0
+        hi = ib if form == "span" else len(s)
+        for o in offsets_of(f):
+            if o < lo or o > hi or (o < len(s) and (s[o] & 0xC0) == 0x80):
+                bad_off += 1
+                why, prio = "offset %d is outside [%d,%d] or not a char boundary of the input" % (o, lo, hi), 0
+                break
+        if why is None and ("PANIC" in a or "PANIC" in ar):
+            panics += 1
+            why, prio = "the implementation panicked: %s" % (a if "PANIC" in a else ar)[:200], 1
+        if why is None and (a != ar or x != xr):
+            bad_rel += 1
+            why, prio = "debug and release builds differ: %s vs %s" % (a[:150], ar[:150]), 2
+        if a != b:
+            bad_t2 += 1
+            if why is None:
+                why, found, prio = "model/implementation correspondence broken on %s" % sid, False, 5
         if why:
-            if sid not in reported and len(reported) < 6:
-                reported.add(sid)
-                ctx.violation(why, dict(core.describe(envs, sid), form=form, input_hex=hx, a=ia, b=ib, impl_debug=a, impl_release=ar, model=b),
-                              found_input=found)
+            prev = pending.get(sid)
+            if prev is None or prio < prev[0]:
+                if prev is not None or len(pending) < 40:
+                    pending[sid] = (prio, why, found, dict(core.describe(envs, sid), form=form, input_hex=hx, a=ia, b=ib,
+                                                           impl_debug=a, impl_release=ar, model=b))
         else:
-            if any(c >= 0x80 for c in (bytes.fromhex(hx) if hx != "-" else b"")):
+            if any(c >= 0x80 for c in s):
                 ctx.nontrivial.add((sid, form, hx, ia, ib))
         ctx.count("family=%s" % fam_of.get(sid.split(".")[0], ""))
         ctx.count("form=%s" % form)
         if n % 99991 == 0 and len(ctx.samples) < 6:
             ctx.samples.append({"case": a[:300]})
+    nfound = sum(1 for v in pending.values() if v[2])
+    k = 0
+    for sid, (prio, why, found, rep) in sorted(pending.items(), key=lambda kv: (kv[1][0], kv[0])):
+        if k >= 6 or (not found and nfound and k >= nfound + 1):
+            break
+        k += 1
+        ctx.violation(why, rep, found_input=found)
     ctx.evaluations += 2 * n
     ctx.coverage.update({"cases_per_profile": n, "panics": panics, "debug_release_differences": bad_rel, "t2_mismatches": bad_t2,
                          "offsets_off_boundary_or_out_of_range": bad_off, "traces_validated_against_impl": n - bad_t2,
